@@ -241,6 +241,14 @@ func sensitivity(names []string) int {
 			// thorough check finds it)
 			verdict = "thorough-only(ok)"
 		}
+		if expect == "out-of-reach" && code == 0 {
+			// documented as beyond both tiers (meta.json and DESIGN 14.2 say why): a standing miss
+			verdict = "out-of-reach(documented)"
+		}
+		if expect == "undecidable" && code == 2 {
+			// documented: the change uses a construct the engine refuses (exit 2 with a reason)
+			verdict = "refused(documented)"
+		}
 		if expect == "pass" {
 			switch code {
 			case 0:
@@ -283,9 +291,13 @@ func patchMeta(patch, name string) (prop, expect, base string) {
 			var m struct {
 				Base  string `json:"base"`
 				Quick string `json:"quick_expected"`
+				Reach string `json:"reach"`
 			}
 			if json.Unmarshal(b, &m) == nil {
 				base = m.Base
+				if m.Reach == "out-of-reach" || m.Reach == "undecidable" {
+					return prop, m.Reach, base
+				}
 				if m.Quick == "missed" {
 					return prop, "thorough-only", base
 				}
